@@ -55,6 +55,18 @@ func gen(t *rapid.T) Case {
 		o.MaxPts, o.MaxMembers, o.MaxDepth = rapid.IntRange(300, 1200).Draw(t, "maxptslong"), 3, 1 // members of hundreds of vertices
 	}
 	g := vkit.GenGJ(t, o)
+	// round 13: a box among the geometries may be the box that holds no point (geom.NewBounds(): Min = +Inf, Max = -Inf),
+	// alone or as a member of a collection: a geometry without vertices like an empty line
+	var emptyBoxes func(g *vkit.GJ)
+	emptyBoxes = func(g *vkit.GJ) {
+		if g.T == "Bounds" && rapid.IntRange(0, 3).Draw(t, "emptyboxgeom") == 0 {
+			g.Pts = []vkit.P2{vkit.MkP(inf, inf), vkit.MkP(-inf, -inf)}
+		}
+		for i := range g.Geoms {
+			emptyBoxes(&g.Geoms[i])
+		}
+	}
+	emptyBoxes(&g)
 	if rapid.IntRange(0, 29).Draw(t, "deep") == 17 {
 		// collections nested 15 to 66 deep (next to 16, 32 and 64, the sizes at which a stack that is grown by doubling
 		// is moved), the nested collection followed by another member on most levels, vertices at the bottom and on the way
@@ -352,7 +364,8 @@ func TestProp(t *testing.T) {
 			"4-5 value grid. Non-trivial = geometry with an empty member or nesting depth>=2; box pair that touches, is separated on exactly one axis, or " +
 			"involves an empty box. Distinct by case hash." +
 			" Round 9: histories in which a returned box is grown in place (Extend, field writes) before Bounds() is asked of the next empty geometry." +
-			" Round 11: one geometry in 30 is wrapped in collections nested 15-66 deep.",
+			" Round 11: one geometry in 30 is wrapped in collections nested 15-66 deep." +
+			" Round 13: a quarter of the boxes among the geometries are the box without any point (geom.NewBounds()): no vertices, Len 0, the empty box as Bounds.",
 		Assumptions: []string{"NaN coordinates are outside the property (min/max of NaN unspecified)", "non-canonical inverted boxes (Max<Min with finite values) are not generated: their lattice meaning is not stated by the property"},
 		Gen:         gen,
 		Run:         run,
